@@ -6,8 +6,11 @@ descriptor (whatever they are called; one, or one per mode), the members iv_even
 event_wfd, and the mode flag = the one mutable file-scope object the functions' behaviour depends
 on (a variable or a member of a file-scope struct; read directly, through accessors, or used as
 index of constant tables).  See h09.py for the analyses.
+R-C09d adds one more role: the eventfd-creating calls = the calls whose result registration registers on a
+success path that ends in an eventfd mode; the flag may leave the eventfd values only after such a call failed
+with ENOSYS.
 """
-from ..core import AnalysisBroken, relpath, must_pass
+from ..core import AnalysisBroken, relpath, must_pass, walk
 from ..analyses import callback_kind
 from . import h09
 from .h09 import EAGAIN, EINTR
@@ -20,9 +23,14 @@ def run(ctx):
                        'explicitly; eventfd mode: it is the registered read descriptor); the post\'s only blocking-capable call is write, retried on EINTR', floor=9)
     ctx.rule('R-C09c', 'mode consistency: register, handler, post and unregister discriminate pipe/eventfd by the same flag; the read '
                        'size is 8 exactly in eventfd mode; unregister closes the write end exactly in pipe mode', floor=10)
+    ctx.rule('R-C09d', 'the mode is one-way: only registration writes the mode flag; it never goes back from pipe mode (0) to an eventfd value, '
+                       'and it leaves the eventfd values for 0 only in a state in which the latest eventfd-creating call of the invocation has '
+                       'failed with ENOSYS (eventfd does not exist, so no eventfd-backed object can be registered); any other failure of that '
+                       'call fails the registration and leaves the mode alone', floor=3)
     ctx.section(drain)
     ctx.section(nonblock)
     ctx.section(modes)
+    ctx.section(oneway)
 
 
 # --------------------------------------------------------------------------
@@ -67,14 +75,24 @@ def _the_flag(ctx):
     return sorted(fl)[0]
 
 
+def _all_paths(ctx):
+    """(paths of (inlined) registration that reach a return, paths abandoned at the loop bound), symbolically executed (cached)."""
+    prog = ctx.prog
+    c = prog.__dict__.get('_c09_allpaths')
+    if c is None:
+        reg, R = _roles(ctx)['register']
+        sx = h09.SymExec(R, prog=prog, unit=prog.unit_of(reg))
+        c = prog.__dict__['_c09_allpaths'] = (sx.run(), sx.cut)
+    return c
+
+
 def _registration(ctx):
     """Success paths of (inlined) registration, symbolically executed (cached)."""
     prog = ctx.prog
     c = prog.__dict__.get('_c09_regpaths')
     if c is not None:
         return c
-    reg, R = _roles(ctx)['register']
-    paths = h09.SymExec(R, prog=prog, unit=prog.unit_of(reg)).run()
+    paths = _all_paths(ctx)[0]
     succ = []
     for p in paths:
         if p.end and p.end[0] == 'ret' and p.result is not None:
@@ -450,3 +468,173 @@ def modes(ctx):
                   + ('' if okw else ': ' + '; '.join(why)), fn=u.q)
     ctx.ob('R-C09c', 'unregister:read-end-unregistered-and-closed', okr, loc=u.loc,
            detail='iv_fd_unregister(&event_rfd) and close(event_rfd.fd) on every path in every mode', fn=u.q)
+
+
+# --------------------------------------------------------------------------
+# R-C09d: the mode only ever changes while no object of the other mode can exist
+# --------------------------------------------------------------------------
+
+ENOSYS = 38
+
+
+def _vals(facts, v, dom):
+    """values of the flag's domain that the symbolic value v may denote under a snapshot of the path facts"""
+    if v is None:
+        return set(dom)
+    if v[0] == 'c':
+        return {v[1]}
+    if v[0] in ('s', 'neg'):
+        lo, hi, ne = facts.get(v[1], (-h09.INF, h09.INF, frozenset()))
+        sg = 1 if v[0] == 's' else -1
+        return {d for d in dom if lo <= sg * d <= hi and sg * d not in ne}
+    return set(dom)
+
+
+def _failed(facts, c):
+    """the call is known to have returned a negative value"""
+    r = c['res']
+    return r[0] == 's' and facts.get(r[1], (-h09.INF, h09.INF, frozenset()))[1] < 0
+
+
+def _succeeded(facts, c):
+    r = c['res']
+    return r[0] == 's' and facts.get(r[1], (-h09.INF, h09.INF, frozenset()))[0] >= 0
+
+
+def _errno_left(facts, c):
+    """(lo, hi, excluded) of errno as left by the call"""
+    en = c.get('errno')
+    if en is None:
+        return (1, h09.INF, frozenset())
+    return facts.get(en[1], (1, h09.INF, frozenset()))
+
+
+def _absent(facts, c):
+    """the call is known to have failed with ENOSYS: what it creates does not exist on this kernel (and never did)"""
+    lo, hi, _ = _errno_left(facts, c)
+    return _failed(facts, c) and lo == hi == ENOSYS
+
+
+def _efd_sources(ctx, flag, dom):
+    """The eventfd-creating calls, by role: the calls whose result registration registers as read descriptor / stores as
+    write end on a success path that ends in an eventfd mode: {(callee, loc)}"""
+    out = set()
+    for p in _registration(ctx):
+        if not any(v != 0 for v in _flag_values(p, flag, dom)):
+            continue
+        vals = [st.get(k + '.fd') for (st, k) in _registered(ctx, p)]
+        wk = _this_key(ctx, p, p.store, 'event_wfd')
+        vals.append(p.store.get(wk) if wk else None)
+        for v in vals:
+            lb = _label(p, v)
+            if lb and lb[0] == 'call':
+                out.add((lb[1], lb[2]))
+    return out
+
+
+def _latest(calls, sources):
+    for c in reversed(calls):
+        if (c['callee'], c['loc']) in sources:
+            return c
+    return None
+
+
+def _errno_text(facts, c):
+    lo, hi, ne = _errno_left(facts, c)
+    if lo == hi:
+        return 'errno == %d' % lo
+    return 'errno unknown' + (' (not %s)' % '/'.join(str(x) for x in sorted(ne)) if ne else '')
+
+
+def _unit_code(prog, unit):
+    """q-names of the functions that are code of the translation unit: defined in its file, or (header functions) called
+    from there; the same header function used by another unit works on that unit's own copy of the file-scope state"""
+    seen = set()
+    work = [f for f in prog.all_funcs() if prog.unit_of(f) == unit]
+    while work:
+        f = work.pop()
+        if f.q in seen:
+            continue
+        seen.add(f.q)
+        for e in f.events():
+            names = [e['callee']] if e['ev'] == 'call' and 'callee' in e else []
+            # a function whose address is taken may be called as well
+            names += [x['name'] for x in walk(e) if x.get('k') == 'var' and x.get('vk') == 'func']
+            for n in names:
+                t = prog.resolve(unit, n)
+                if t is not None and t.blocks and prog.unit_of(t) in (unit, None):
+                    work.append(t)
+    return seen
+
+
+def oneway(ctx):
+    prog = ctx.prog
+    ro = _roles(ctx)
+    reg, R = ro['register']
+    flag = _the_flag(ctx)
+    unit = prog.unit_of(ro['post'][0])
+    dom = h09.flag_domain(prog, unit, flag)
+    root = h09._steps(flag)[0].split('[')[0]
+    done, cut = _all_paths(ctx)
+    sources = _efd_sources(ctx, flag, dom)
+
+    # ---- who writes the flag: only code that runs as part of registration (the other roles are covered by R-C09c <role>:mode-flag)
+    inreg = {e.get('loc') for e in R.events() if e['ev'] == 'store'}
+    mine = _unit_code(prog, unit)
+    outside = sorted({relpath(e.get('loc')) for (f, e) in prog.global_writers(root)
+                      if h09._flag_store(e, flag) and f.q in mine and e.get('loc') not in inreg})
+    # ... and no other entry point of the unit executes one of those stores (through a helper shared with registration)
+    for f in sorted(prog.all_funcs(), key=lambda f_: f_.q):
+        if prog.unit_of(f) == unit and not f.static and f.q != reg.q and f.blocks and h09.flag_written(h09.inl(prog, f), flag):
+            outside.append('executed by %s' % f.name)
+    ctx.ob('R-C09d', 'mode-flag:written-only-by-registration', not outside, loc=reg.loc,
+           detail='every store to %s is executed by %s (helpers inlined): only there is it known whether an object of the other mode can exist'
+                  % (flag, reg.name) + ('' if not outside else '; other stores: ' + ', '.join(outside)), fn=reg.q)
+
+    # ---- every store to the flag, in every path context
+    per = {}
+    for p in list(done) + list(cut):
+        for w in p.stores:
+            e = w['event']
+            exact = w['key'] == flag and e.get('op') == '='
+            if not (exact or w['key'] == flag or h09._flag_store(e, flag)):
+                continue
+            facts = w['facts']
+            O = _vals(facts, w['old'], dom) if w['key'] == flag else set(dom)
+            N = _vals(facts, w['new'], dom) if exact else set(dom)
+            bad = per.setdefault(e.get('loc'), [])
+            where = '; '.join(p.conds[max(0, w['nconds'] - 6):w['nconds']])
+            if 0 in O and any(n != 0 for n in N):
+                bad.append('stores %s while %s may be 0: objects registered in pipe mode would be treated as eventfds from now on (path: %s)'
+                           % (sorted(n for n in N if n != 0), flag, where))
+            if any(o != 0 for o in O) and 0 in N and sources:
+                c = _latest(p.calls[:w['ncalls']], sources)
+                if c is None:
+                    bad.append('stores 0 while %s may be %s although no eventfd-creating call was attempted in this invocation: '
+                               'objects registered in eventfd mode may exist (path: %s)' % (flag, sorted(o for o in O if o != 0), where))
+                elif not _absent(facts, c):
+                    bad.append('stores 0 while %s may be %s, but the latest eventfd-creating call (%s at %s) is not known to have failed with '
+                               'ENOSYS here (%s, %s): a transient failure would switch every eventfd-backed object to pipe mode (path: %s)'
+                               % (flag, sorted(o for o in O if o != 0), c['callee'], relpath(c['loc']),
+                                  'failed' if _failed(facts, c) else 'result not known to be negative', _errno_text(facts, c), where))
+    if not per:
+        raise AnalysisBroken('%s never writes the mode flag %s (no fallback to examine)' % (reg.name, flag))
+    for loc, bad in sorted(per.items(), key=lambda kv: str(kv[0])):
+        ctx.ob('R-C09d', 'register:mode-switch-one-way', not bad, loc=loc,
+               detail='this store to %s changes the mode (zero <-> non-zero) only from an eventfd value to 0, and only when the latest '
+                      'eventfd-creating call (%s) of the invocation has failed with ENOSYS'
+                      % (flag, ', '.join(sorted('%s at %s' % (c, relpath(l)) for (c, l) in sources)) or 'none exists')
+                      + ('' if not bad else ' -- ' + bad[0]), fn=reg.q)
+
+    # ---- a failure of the eventfd-creating call that does not mean "absent" fails the registration
+    bad = []
+    for p in _registration(ctx):
+        c = _latest(p.calls, sources)
+        if c is None or _succeeded(p.facts, c) or _absent(p.facts, c):
+            continue
+        bad.append('%s at %s: %s, %s (path: %s)' % (c['callee'], relpath(c['loc']), 'failed' if _failed(p.facts, c) else 'result unknown',
+                                                     _errno_text(p.facts, c), _describe(p)))
+    ctx.ob('R-C09d', 'register:other-eventfd-failure-fails-registration', not bad, loc=reg.loc,
+           detail='registration returns success only when the latest eventfd-creating call succeeded or failed with ENOSYS (then the '
+                  'pipe is the mode of every object); after any other failure the object cannot be backed consistently with the mode flag'
+                  + ('' if not bad else ' -- returns success after ' + bad[0]), fn=reg.q)
